@@ -271,6 +271,77 @@ fn run_puncture_stability(cx: &mut CaseCx, case: &Value) {
   cx.outcome("stable across punctures");
 }
 
+
+/// Outputs do not depend on HOW MUCH of the key is left: servers that retain only one or two subtrees of the
+/// tag tree (everything else punctured) still finalise every live tag to its original output.
+fn run_sparse_keys(cx: &mut CaseCx, case: &Value) {
+  use super::c10::{all_nodes, node_pairs};
+  cx.entropy(950);
+  let server = pp::Server::new((0..=255u8).collect()).expect("server");
+  let input = b"sparse key input".to_vec();
+  let part = case["part"].as_u64().unwrap() as usize;
+  let parts = case["parts"].as_u64().unwrap() as usize;
+  let mut shapes: Vec<Vec<crate::ggmx::Node>> = all_nodes().into_iter().map(|n| vec![n]).collect();
+  shapes.extend(node_pairs().into_iter().map(|(a, b)| vec![a, b]));
+  let mut base: HashMap<u8, [u8; 32]> = HashMap::new();
+  for (si, shape) in shapes.iter().enumerate() {
+    if si % parts != part {
+      continue;
+    }
+    let live: Vec<u8> = (0..=255u8).filter(|&x| shape.iter().any(|n| n.covers(x))).collect();
+    let mut probes: Vec<u8> = vec![live[0], live[live.len() - 1], live[live.len() / 2]];
+    for n in shape {
+      probes.push(n.leaves()[0]);
+    }
+    probes.sort();
+    probes.dedup();
+    for &t in &probes {
+      if !base.contains_key(&t) {
+        match exchange(&server, t, &input, &Blind::Fresh(0), false) {
+          Ok((_, _, fin)) => {
+            base.insert(t, fin);
+          }
+          Err(e) => {
+            cx.viol("C12/exchange-failed", format!("exchange for tag {} on a fresh server failed: {}", t, e), json!({"tag": t}));
+            return;
+          }
+        }
+      }
+    }
+    let mut s = server.clone();
+    let mut order: Vec<u8> = (0..=255u8).filter(|x| !live.contains(x)).collect();
+    if si % 2 == 1 {
+      order.reverse();
+    }
+    for &x in &order {
+      let _ = s.puncture(x);
+    }
+    for &t in &probes {
+      for verifiable in [false, true] {
+        if verifiable && t != probes[0] {
+          continue;
+        }
+        cx.eval();
+        match exchange(&s, t, &input, &Blind::Fresh(1), verifiable) {
+          Ok((_, _, fin)) => {
+            if Some(&fin) != base.get(&t) {
+              cx.viol("C12/output-depends-on-puncture-history/sparse-key", format!("the output for tag {} changed after all tags outside the subtree(s) {:?} were punctured ({} punctures)", t, shape, order.len()), json!({"tag": t, "retained_subtrees": format!("{:?}", shape), "punctures": order.len(), "verifiable": verifiable}));
+              return;
+            }
+            cx.count("stable_outputs", 1);
+          }
+          Err(e) => {
+            cx.viol("C12/exchange-failed/sparse-key", format!("exchange for the unpunctured tag {} failed after all tags outside the subtree(s) {:?} were punctured: {}", t, shape, e), json!({"tag": t, "retained_subtrees": format!("{:?}", shape), "verifiable": verifiable}));
+            return;
+          }
+        }
+      }
+    }
+    cx.nontrivial(fnv_str(&format!("{:?}", shape)));
+  }
+  cx.outcome("sparse keys stable");
+}
+
 /// unbounded repetitions (bounded here: 300) of one request on one thread stay fresh
 fn run_freshness(cx: &mut CaseCx, _case: &Value) {
   cx.entropy(950);
@@ -420,6 +491,13 @@ pub fn spec() -> PropSpec {
         gen: |_| (0..18u64).map(|o| json!({"order": o})).collect(),
         run: run_puncture_stability,
         min_counts: &[("stable_outputs", 1000)],
+      },
+      Check {
+        name: "sparse-keys",
+        rule: "server with all 256 tags: for EVERY tree node (510) and every disjoint pair from a 24-node family, all tags outside those subtrees are punctured (ascending / descending alternately, up to 255 punctures); the first, middle, last live tag and the first tag of each retained subtree still finalise to the outputs of the unpunctured server (one of them also with a proof)",
+        gen: |_| (0..32u64).map(|i| json!({"part": i, "parts": 32})).collect(),
+        run: run_sparse_keys,
+        min_counts: &[("stable_outputs", 1500)],
       },
       Check { name: "repeated-requests", rule: "300 consecutive requests for two alternating inputs on one thread under fresh entropy: all blinded points pairwise distinct", gen: |_| vec![json!({})], run: run_freshness, min_counts: &[("fresh_requests", 300)] },
       Check {
